@@ -220,6 +220,24 @@ func TestCheck(t *testing.T) {
 		}()
 	}
 	wg.Wait()
+	var fcCases atomic.Int64
+	done := map[*base]bool{}
+	for _, c := range cfgs {
+		b := find(c)
+		if done[b] || b.name == "empty" {
+			continue
+		}
+		done[b] = true
+		wg.Add(1)
+		go func() {
+			defer wg.Done()
+			h.sem <- struct{}{}
+			defer func() { <-h.sem }()
+			fcCases.Add(h.failedCommitSweep(b))
+		}()
+	}
+	wg.Wait()
+	r.Set("failed_commit_cases", fcCases.Load())
 	var states, transitions, maxDepth, qstates int64
 	var cfgNames []string
 	for i, c := range cfgs {
@@ -252,12 +270,13 @@ func TestCheck(t *testing.T) {
 		"state = KV image + reflective dump of running filter and LRU; in every state that is distinct for queries (image without the snapshot key + the two index objects): "+
 		"%d filters x all ranges over endpoints {0,8191,8192,head-2..head+1} x chunk %v x scan limit %v (on ranges > %d blocks a fully wildcard filter is only run pattern-less, unlimited, chunk 100 and chunk 1) "+
 		"in every state of depth <= 1 additionally 3 pre-confirmed chains (1-2 blocks) above the head x all filters x ranges reaching above the head incl. the pre_confirmed tag at either end; "+
+		"failed-commit sweep: every base x {store:X, store:Y, revert} x k-th commit fails -> same node answers the grid, retry succeeds; "+
 		"paged to the end (tokens round-tripped through their string form, must advance) and compared event by event with the naive scan of the reference receipts",
 		opList(alphabet), len(h.filters), chunkSizes, scanLimits, longRange))
 	r.Assume = append(r.Assume,
 		"blocks are produced by verif/mc/chain (valid hashes/commitments); event layouts come from the 4-shape set of universe_test.go",
 		"a key pattern ending in a wildcard position is compared under juno's reading (event needs a key at every pattern position); counted in outcome 'trailing-wildcard-excludes-shorter-event'",
-		"crash = loss of the process (new Blockchain on the same store); torn/failed commits are C05's subject",
+		"crash = loss of the process (new Blockchain on the same store); a failing commit (failed-commit sweep) returns an error and applies nothing (verif/mc/faultdb)",
 		"base images are reached by plain sequential sync (no enumeration below them)")
 	r.Finish()
 }
@@ -656,7 +675,7 @@ func (h *harness) checkState(n *node, path []op, label string) {
 
 func (h *harness) report(n *node, path []op, label string, f *filter, from, to, chunk uint64, lim uint, res pagedResult, exp []*refEvent, baseOK bool) {
 	r := h.r
-	backend := hist.Backend(n.b.newState)
+	backend := hist.Backend(n.b.newState) + n.ctx
 	detail := map[string]any{"base": label, "path": pathString(path), "filter": f.name, "from": from, "to": to, "chunk": chunk, "scan_limit": limitName(lim),
 		"head": len(n.chain) - 1, "expected": expStrings(exp), "got": gotStrings(res.evs)}
 	if res.err != "" {
@@ -705,7 +724,7 @@ func (h *harness) report(n *node, path []op, label string, f *filter, from, to, 
 		// (3) did the history replace blocks? (a stale index entry needs a reorg)
 		reorg := "no-reorg-in-history"
 		for _, o := range path {
-			if o == opRevert {
+			if o == opRevert && n.ctx == "" {
 				reorg = "after-reorg"
 			}
 		}
